@@ -24,7 +24,8 @@ var verifC10Corpus = []verifDoc{
 	{name: "b.txt", content: "Needle foobar\nNEEDLE\n", branches: []string{"main", "dev"}},
 	{name: "c.md", content: "héllo needle\n", branches: []string{"dev"}},
 	{name: "needle.go", content: "x y z\n", branches: []string{"main"}},
-	{name: "e.txt", content: "foo needle foo needle\n", branches: []string{"main", "dev"}},
+	{name: "e.txt", content: "foo needle foo needle héllo\n", branches: []string{"main", "dev"}},
+	{name: "f.md", content: "ohé héllo again, größe\n", branches: []string{"main"}},
 }
 
 func verifC10Build(dir string, shardMax, order, parallelism int) error {
@@ -95,6 +96,7 @@ func verifC10Queries() []query.Q {
 	return []query.Q{
 		&query.Substring{Pattern: "needle"}, &query.Substring{Pattern: "Needle", CaseSensitive: true}, &query.Substring{Pattern: "foo", Content: true},
 		&query.Substring{Pattern: "needle", FileName: true}, &query.Branch{Pattern: "dev"}, query.NewAnd(&query.Substring{Pattern: "foo"}, &query.Not{Child: &query.Substring{Pattern: "bar"}}),
+		&query.Substring{Pattern: "héllo"}, // a non-ASCII trigram that occurs in two documents (two shards when split)
 	}
 }
 
